@@ -38,3 +38,33 @@ package tabix
 //@   decoder
 //@   loop 0 invariant @idx 0 <= i && i <= len(idx.refNames) && idx.nameMap != nil && fresh(idx.nameMap)
 //@   loop 0 decreases len(idx.refNames) - i
+
+// Index.Add (C04): the index keeps a table from reference names to dense ids;
+// a record's name is looked up there, a new name gets the next id and is
+// entered in the table, so that later records of the same reference share the
+// id and Chunks finds the reference by name. The record itself is filed by
+// internal.Index.Add (under its own contract; its ordering preconditions are a
+// matter of the caller's history and are assumed here).
+//@ uninterp func tRefName(r Record) string
+//@ uninterp func tStart(r Record) int
+//@ uninterp func tEnd(r Record) int
+//@ trusted func ext:github.com/biogo/hts/tabix.Record.RefName
+//@   ensures result == tRefName(self)
+//@ trusted func ext:github.com/biogo/hts/tabix.Record.Start
+//@   ensures result == tStart(self)
+//@ trusted func ext:github.com/biogo/hts/tabix.Record.End
+//@   ensures result == tEnd(self)
+//@ spec func namesOK(i *Index) bool = i.nameMap != nil &&
+//@     (forall s string :: has(i.nameMap, s) ==> (0 <= i.nameMap[s] && i.nameMap[s] < len(i.refNames) && i.refNames[i.nameMap[s]] == s)) &&
+//@     (forall k in 0..len(i.refNames) :: (has(i.nameMap, i.refNames[k]) && i.nameMap[i.refNames[k]] == k))
+
+//@ func Index.Add
+//@   mode int
+//@   props C04
+//@   assumes pre Index.Add
+//@   requires i != nil && r != nil && namesOK(i) && len(i.refNames) <= 1000000
+//@   requires 0 <= tStart(r) && tStart(r) < tEnd(r) && tEnd(r) <= 536870912
+//@   modifies i.refNames, mapof(i.nameMap), arrays(string), i.idx, arrays(internal.RefIndex), arrays(internal.Bin), arrays(bgzf.Chunk), arrays(bgzf.Offset), objects(internal.ReferenceStats), objects(uint64)
+//@   ensures[C04] @names namesOK(i)
+//@   ensures[C04] @known has(i.nameMap, tRefName(r))
+//@   ensures[C04] @kept forall s string :: old(has(i.nameMap, s)) ==> (has(i.nameMap, s) && i.nameMap[s] == old(i.nameMap[s]))
